@@ -1,48 +1,390 @@
 //go:build verif
 
 // Check C10: P&T rendering is total, deterministic and never applies a half-rendered resource.
+//
+// Process layout: the binary started by ./check is a supervisor. It runs every batch of cases in
+// a child process (the same binary, C10_CHILD=1) that executes the real code on 16 goroutines and
+// writes its observations to a result file. A Go fatal error (stack overflow, concurrent map
+// write, ...) cannot be recovered in-process; when a child dies the supervisor re-runs the batch
+// sequentially with a per-case marker on disk, pins the exact case, records a violation whose
+// key names the fatal error and the faulting function, and finishes the batch without that case.
 package main
 
 import (
+	"bytes"
+	"context"
 	"encoding/json"
 	"fmt"
 	"math/rand/v2"
 	"os"
+	"os/exec"
 	"path/filepath"
 	"regexp"
 	"runtime"
+	"runtime/debug"
 	"sort"
+	"strconv"
+	"strings"
 	"sync"
 	"sync/atomic"
+	"time"
 
 	"github.com/crossplane/crossplane/verifh/kit"
 )
+
+// sink is what a case reports to: the kit context (never used directly by cases) or a recorder.
+type sink interface {
+	Eval(fingerprint string, nontrivial bool)
+	Violate(key, caseName, what string, witness any)
+	Sample(v any)
+	WantSample() bool
+	Inconclusive(reason string)
+}
 
 type part struct {
 	name  string
 	n     int
 	chunk int
-	run   func(c *kit.Ctx, name string, r *rand.Rand, st stats)
+	run   func(c sink, name string, r *rand.Rand, st stats)
 }
+
+func partsFor(c *kit.Ctx) []part {
+	return []part{
+		{name: "patch", n: c.N(100000, 2200000), chunk: 10000, run: runPatchCase},
+		{name: "law", n: c.N(110000, 2800000), chunk: 10000, run: runLawCase},
+		{name: "composer", n: c.N(700, 16000), chunk: 350, run: runComposerCase},
+		{name: "star", n: c.N(4, 8), chunk: 8, run: runStarCase},
+	}
+}
+
+// ---- child ---------------------------------------------------------------------------------------
+
+type recViolation struct {
+	Key     string `json:"key"`
+	Case    string `json:"case"`
+	What    string `json:"what"`
+	Witness any    `json:"witness"`
+	Count   int    `json:"count"`
+}
+
+type recEval struct {
+	H  string `json:"h"`
+	NT bool   `json:"n,omitempty"`
+}
+
+type result struct {
+	Stats        stats           `json:"stats"`
+	Evals        []recEval       `json:"evals"`
+	Violations   []*recViolation `json:"violations"`
+	Samples      []any           `json:"samples"`
+	Inconclusive []string        `json:"inconclusive"`
+}
+
+type recorder struct {
+	mu  sync.Mutex
+	res result
+	idx map[string]*recViolation
+}
+
+func (r *recorder) Eval(fp string, nt bool) {
+	h := kit.Hash(fp)
+	r.mu.Lock()
+	r.res.Evals = append(r.res.Evals, recEval{H: h, NT: nt})
+	r.mu.Unlock()
+}
+
+func (r *recorder) Violate(key, caseName, what string, witness any) {
+	r.mu.Lock()
+	defer r.mu.Unlock()
+	if v, seen := r.idx[key]; seen {
+		v.Count++
+		// keep the witness of the smallest case name so that the report does not depend on scheduling
+		if len(caseName) < len(v.Case) || (len(caseName) == len(v.Case) && caseName < v.Case) {
+			v.Case, v.What, v.Witness = caseName, what, witness
+		}
+		return
+	}
+	v := &recViolation{Key: key, Case: caseName, What: what, Witness: witness, Count: 1}
+	r.idx[key] = v
+	r.res.Violations = append(r.res.Violations, v)
+}
+
+func (r *recorder) Sample(v any) {
+	r.mu.Lock()
+	if len(r.res.Samples) < 48 {
+		r.res.Samples = append(r.res.Samples, v)
+	}
+	r.mu.Unlock()
+}
+
+func (r *recorder) WantSample() bool {
+	r.mu.Lock()
+	defer r.mu.Unlock()
+	return len(r.res.Samples) < 48
+}
+
+// finalSamples keeps the samples of the smallest case indexes so that evidence does not depend
+// on goroutine scheduling.
+func (r *recorder) finalSamples() {
+	idx := func(v any) int {
+		m, _ := v.(map[string]any)
+		s, _ := m["case"].(string)
+		n, _ := strconv.Atoi(s[strings.LastIndex(s, "/")+1:])
+		return n
+	}
+	sort.SliceStable(r.res.Samples, func(i, j int) bool { return idx(r.res.Samples[i]) < idx(r.res.Samples[j]) })
+	if len(r.res.Samples) > 2 {
+		r.res.Samples = r.res.Samples[:2]
+	}
+}
+
+func (r *recorder) Inconclusive(reason string) {
+	r.mu.Lock()
+	r.res.Inconclusive = append(r.res.Inconclusive, reason)
+	r.mu.Unlock()
+}
+
+func wantCase(only, name string) bool {
+	return only == "" || only == name || strings.HasPrefix(name, only+"/")
+}
+
+func childMain() {
+	debug.SetMaxStack(64 << 20) // a runaway recursion dies quickly instead of eating 1 GB first
+	c := kit.New("C10", "exploration") // only for Rng / tier: the child never calls Finish
+	partName := os.Getenv("C10_PART")
+	lo, _ := strconv.Atoi(os.Getenv("C10_LO"))
+	hi, _ := strconv.Atoi(os.Getenv("C10_HI"))
+	batch := os.Getenv("C10_BATCH")
+	only := os.Getenv("C10_ONLY")
+	mark := os.Getenv("C10_MARK")
+	skip := map[int]bool{}
+	for _, s := range strings.Split(os.Getenv("C10_SKIP"), ",") {
+		if n, err := strconv.Atoi(s); err == nil {
+			skip[n] = true
+		}
+	}
+	var p part
+	for _, q := range partsFor(c) {
+		if q.name == partName {
+			p = q
+		}
+	}
+	if p.run == nil {
+		fmt.Fprintln(os.Stderr, "c10 child: unknown part", partName)
+		os.Exit(3)
+	}
+	workers := runtime.NumCPU()
+	if workers > 16 {
+		workers = 16
+	}
+	if mark != "" {
+		workers = 1
+	}
+	rec := &recorder{idx: map[string]*recViolation{}}
+	rec.res.Stats = stats{}
+	var next atomic.Int64
+	next.Store(int64(lo))
+	var wg sync.WaitGroup
+	var mu sync.Mutex
+	for wk := 0; wk < workers; wk++ {
+		wg.Add(1)
+		go func() {
+			defer wg.Done()
+			st := stats{}
+			for {
+				i := int(next.Add(1) - 1)
+				if i >= hi {
+					break
+				}
+				name := fmt.Sprintf("%s/%d", batch, i)
+				if !wantCase(only, name) && !wantCase(only, batch) {
+					continue
+				}
+				if skip[i] {
+					st.inc("cases_skipped_after_fatal_error")
+					continue
+				}
+				if mark != "" {
+					_ = os.WriteFile(mark, []byte(name), 0o644)
+				}
+				// a harness bug must not masquerade as a finding: it is reported as such
+				if perr := kit.Try(func() { p.run(rec, name, c.Rng(p.name, i), st) }); perr != nil {
+					rec.Inconclusive("harness panic in " + name + ": " + firstLines(perr.Error(), 12))
+				}
+			}
+			mu.Lock()
+			for k, v := range st {
+				rec.res.Stats[k] += v
+			}
+			mu.Unlock()
+		}()
+	}
+	wg.Wait()
+	rec.finalSamples()
+	b, err := json.Marshal(rec.res)
+	if err != nil {
+		fmt.Fprintln(os.Stderr, "c10 child: cannot encode result:", err)
+		os.Exit(3)
+	}
+	if err := os.WriteFile(os.Getenv("C10_RESULT"), b, 0o644); err != nil {
+		fmt.Fprintln(os.Stderr, "c10 child: cannot write result:", err)
+		os.Exit(3)
+	}
+	os.Exit(0)
+}
+
+// ---- supervisor ------------------------------------------------------------------------------------
 
 func pendingPath() string { return filepath.Join(kit.Root(), "replays", "pending-C10.json") }
 
-// writePending puts the batch that is about to run on disk: if the process dies of a Go fatal
-// error (which no recover can catch) ./check turns this file into the violation's replay.
+// writePending puts the batch that is about to run on disk (the contract of ./check for runs
+// that die altogether; the supervisor normally turns a dead child into a violation itself).
 func writePending(c *kit.Ctx, caseName string, lo, hi int) {
 	_ = os.MkdirAll(filepath.Dir(pendingPath()), 0o755)
 	b, _ := json.MarshalIndent(map[string]any{
 		"property": "C10", "tier": c.Tier, "seed": c.Seed, "case": caseName,
 		"key":  "fatal-error-in-batch",
-		"what": fmt.Sprintf("the process died while running cases %d..%d of batch %s (fatal error or unrecovered panic in another goroutine)", lo, hi-1, caseName),
+		"what": fmt.Sprintf("the process died while running cases %d..%d of batch %s", lo, hi-1, caseName),
 	}, "", " ")
 	_ = os.WriteFile(pendingPath(), b, 0o644)
 }
 
+type childRun struct {
+	res    *result
+	died   bool
+	stderr string
+	note   string
+}
+
+func runChild(c *kit.Ctx, p part, batch string, lo, hi int, skip []int, markFile string, workDir string) childRun {
+	resFile := filepath.Join(workDir, "result.json")
+	errFile := filepath.Join(workDir, "stderr.txt")
+	_ = os.Remove(resFile)
+	ctx, cancel := context.WithTimeout(context.Background(), 20*time.Minute)
+	defer cancel()
+	cmd := exec.CommandContext(ctx, os.Args[0])
+	sk := make([]string, len(skip))
+	for i, n := range skip {
+		sk[i] = strconv.Itoa(n)
+	}
+	cmd.Env = append(os.Environ(), "C10_CHILD=1", "C10_PART="+p.name, "C10_BATCH="+batch, "C10_LO="+strconv.Itoa(lo), "C10_HI="+strconv.Itoa(hi),
+		"C10_ONLY="+c.Only, "C10_SKIP="+strings.Join(sk, ","), "C10_MARK="+markFile, "C10_RESULT="+resFile,
+		"VERIF_SEED="+strconv.FormatInt(c.Seed, 10), "VERIF_TIER="+c.Tier, "GOTRACEBACK=single")
+	ef, err := os.Create(errFile)
+	if err != nil {
+		return childRun{note: "cannot create stderr file: " + err.Error()}
+	}
+	cmd.Stdout = ef
+	cmd.Stderr = ef
+	runErr := cmd.Run()
+	_ = ef.Close()
+	if runErr == nil {
+		b, err := os.ReadFile(resFile)
+		if err != nil {
+			return childRun{note: "child exited 0 without a result: " + err.Error()}
+		}
+		var res result
+		d := json.NewDecoder(bytes.NewReader(b))
+		if err := d.Decode(&res); err != nil {
+			return childRun{note: "cannot decode child result: " + err.Error()}
+		}
+		return childRun{res: &res}
+	}
+	if ctx.Err() != nil {
+		return childRun{note: "child timed out"}
+	}
+	eb, _ := os.ReadFile(errFile)
+	if len(eb) > 1<<16 {
+		eb = eb[:1<<16]
+	}
+	return childRun{died: true, stderr: string(eb), note: runErr.Error()}
+}
+
+var rxGoroutineRunning = regexp.MustCompile(`^goroutine \d+ .*\[running\]:`)
+
+// fatalKey derives a stable key from the stderr of a dead child: the runtime's fatal error (or
+// unrecovered panic) message and the innermost non-runtime function of the running goroutine.
+func fatalKey(stderr string) (key, msg string) {
+	lines := strings.Split(stderr, "\n")
+	kind, msg := "crash", "process died"
+	for _, ln := range lines {
+		if strings.HasPrefix(ln, "fatal error: ") {
+			kind, msg = "fatal", strings.TrimPrefix(ln, "fatal error: ")
+			break
+		}
+		if strings.HasPrefix(ln, "panic: ") {
+			kind, msg = "crash", strings.TrimPrefix(ln, "panic: ")
+			break
+		}
+	}
+	fn := "unknown"
+	for i, ln := range lines {
+		if !rxGoroutineRunning.MatchString(ln) {
+			continue
+		}
+		for _, fl := range lines[i+1:] {
+			if fl == "" {
+				break
+			}
+			if strings.HasPrefix(fl, "\t") || strings.HasPrefix(fl, "runtime.") || strings.HasPrefix(fl, "panic(") {
+				continue
+			}
+			if m := rxFrame.FindStringSubmatch(fl); m != nil {
+				fn = m[1]
+				break
+			}
+		}
+		break
+	}
+	if i := strings.LastIndex(fn, "/"); i >= 0 {
+		fn = fn[i+1:]
+	}
+	slug := strings.Map(func(r rune) rune {
+		switch {
+		case r >= 'a' && r <= 'z', r >= '0' && r <= '9':
+			return r
+		case r >= 'A' && r <= 'Z':
+			return r + 32
+		}
+		return '-'
+	}, msg)
+	if len(slug) > 40 {
+		slug = slug[:40]
+	}
+	return kind + ":" + strings.Trim(slug, "-") + "-" + fn, msg
+}
+
+func merge(c *kit.Ctx, total stats, res *result) {
+	for k, v := range res.Stats {
+		total[k] += v
+	}
+	for _, e := range res.Evals {
+		c.Eval(e.H, e.NT)
+	}
+	for _, v := range res.Violations {
+		c.Violate(v.Key, v.Case, v.What, v.Witness)
+		for i := 1; i < v.Count; i++ {
+			c.Violate(v.Key, v.Case, v.What, nil)
+		}
+	}
+	for _, s := range res.Samples {
+		if c.WantSample() {
+			c.Sample(s)
+		}
+	}
+	for _, r := range res.Inconclusive {
+		c.Inconclusive(r)
+	}
+}
+
 func main() {
+	if os.Getenv("C10_CHILD") != "" {
+		childMain()
+		return
+	}
 	c := kit.New("C10", "exploration")
 	c.Rule = "three generated families, all from c.Rng(stream, index): (patch) an XR and a composed resource with random JSON trees " +
-		"(all JSON types, nesting, null, int64 extremes, floats, unicode) in the shape the API server decodes, one patch of every type/policy/" +
+		"(all JSON types, nesting, null, int64 extremes, floats, unicode, '*' keys) in the shape the API server decodes, one patch of every type/policy/" +
 		"merge option with dotted, bracketed, quoted, wildcard, out-of-range and malformed paths and a 0-4 transform chain, applied twice through " +
 		"Apply / Apply+only / ApplyToObjects / the direct entry points or, as a template with PatchSets, through ComposedTemplates + Render*Patches; " +
 		"(law) a start value and a transform chain (or a documented convert round trip) resolved step by step by the real Resolve and by the " +
@@ -50,22 +392,23 @@ func main() {
 		"server while a changing subset is unrenderable. A case is distinct by its patch+input / chain+start / failure pattern and non-trivial when " +
 		"the chain reached >= 2 transforms or a wildcard path was involved and the input was not a string scalar (composer: a reconcile mixed " +
 		"rendered and unrendered templates). Debatable inputs (type mismatch on the path, null prefixes, lenient number syntax, int64 overflow, " +
-		"non-string inputs of string-only transforms, undocumented format/pair combinations) are exercised for totality, purity and determinism only."
+		"non-string inputs of string-only transforms, undocumented format/pair combinations) are exercised for totality, purity and determinism only. " +
+		"Cases run in child processes so that a Go fatal error becomes a violation with the exact case instead of ending the run."
 	c.Assumptions = []string{
 		"objects reaching the patch code were decoded by the Kubernetes JSON decoder (integers are int64, other numbers float64, no NaN/Inf)",
 		"field names contain no brackets or quotes; numeric-looking names are only addressed in dotted form",
 		"fmt.Sprintf, strings.ToUpper/ToLower, encoding/json and crypto hashes of the standard library are trusted as the documented meaning of the Format, case, ToJson and hash transforms",
 		"composer level: the XR is read back from the simulated server before every reconcile; no faults are injected (other checks cover them)",
 	}
-	workers := runtime.NumCPU()
-	if workers > 16 {
-		workers = 16
+	workDir, err := os.MkdirTemp("", "c10-")
+	if err != nil {
+		c.Inconclusive("cannot create work dir: " + err.Error())
+		c.Finish()
 	}
-	parts := []part{
-		{name: "patch", n: c.N(100000, 2200000), chunk: 10000, run: runPatchCase},
-		{name: "law", n: c.N(110000, 2800000), chunk: 10000, run: runLawCase},
-		{name: "composer", n: c.N(700, 16000), chunk: 200, run: runComposerCase},
-	}
+	defer os.RemoveAll(workDir)
+	markFile := filepath.Join(workDir, "mark")
+
+	parts := partsFor(c)
 	total := stats{}
 	for _, p := range parts {
 		for lo := 0; lo < p.n; lo += p.chunk {
@@ -74,41 +417,50 @@ func main() {
 				hi = p.n
 			}
 			batch := fmt.Sprintf("%s/b%d", p.name, lo/p.chunk)
-			if c.Only != "" && !c.Want(batch) && !c.Want(batch+"/x") && !onlyInside(c.Only, batch) {
+			if c.Only != "" && !c.Want(batch) && !onlyInside(c.Only, batch) {
 				continue
 			}
 			writePending(c, batch, lo, hi)
-			var next atomic.Int64
-			next.Store(int64(lo))
-			var wg sync.WaitGroup
-			var mu sync.Mutex
-			for wk := 0; wk < workers; wk++ {
-				wg.Add(1)
-				go func() {
-					defer wg.Done()
-					st := stats{}
-					for {
-						i := int(next.Add(1) - 1)
-						if i >= hi {
-							break
-						}
-						name := fmt.Sprintf("%s/%d", batch, i)
-						if !c.Want(name) {
-							continue
-						}
-						// a harness bug must not masquerade as a finding: it is reported as such
-						if perr := kit.Try(func() { p.run(c, name, c.Rng(p.name, i), st) }); perr != nil {
-							c.Inconclusive("harness panic in " + name + ": " + firstLines(perr.Error(), 12))
-						}
-					}
-					mu.Lock()
-					for k, v := range st {
-						total[k] += v
-					}
-					mu.Unlock()
-				}()
+			var skip []int
+			for attempt := 0; ; attempt++ {
+				cr := runChild(c, p, batch, lo, hi, skip, "", workDir)
+				if cr.res != nil {
+					merge(c, total, cr.res)
+					break
+				}
+				if !cr.died {
+					c.Inconclusive("batch " + batch + ": " + cr.note)
+					break
+				}
+				// the child died: pin the case by a sequential run with a marker per case
+				total["child_processes_died"]++
+				key, msg := fatalKey(cr.stderr)
+				_ = os.Remove(markFile)
+				pin := runChild(c, p, batch, lo, hi, skip, markFile, workDir)
+				if pin.res != nil {
+					// not reproducible sequentially (e.g. a data race between cases): report the batch
+					c.Violate(key+"-unpinned", batch, "a child process died ("+msg+") but the batch passes when run sequentially", map[string]any{"stderr": firstLines(cr.stderr, 40)})
+					merge(c, total, pin.res)
+					break
+				}
+				mb, _ := os.ReadFile(markFile)
+				caseName := string(mb)
+				if !pin.died || caseName == "" {
+					c.Inconclusive("batch " + batch + ": child died and the case could not be pinned: " + pin.note)
+					break
+				}
+				key, msg = fatalKey(pin.stderr)
+				total["fatal_errors"]++
+				c.Eval("fatal|"+caseName, false)
+				c.Violate(key, caseName, "the process died with a Go fatal error / unrecovered panic ("+msg+") while running this case; replay it with ./check C10 --replay",
+					map[string]any{"stderr": firstLines(pin.stderr, 40), "note": "inputs are regenerated from (seed, case); see the replay file"})
+				idx, _ := strconv.Atoi(caseName[strings.LastIndex(caseName, "/")+1:])
+				skip = append(skip, idx)
+				if attempt >= 3 && p.name != "star" {
+					c.Inconclusive("batch " + batch + ": more than 4 fatal cases, batch abandoned")
+					break
+				}
 			}
-			wg.Wait()
 		}
 	}
 	_ = os.Remove(pendingPath())
@@ -121,19 +473,21 @@ func main() {
 	for _, k := range keys {
 		c.Count(k, total[k])
 	}
-	if total["panics"] == 0 {
-		c.Count("panics", 0)
+	for _, k := range []string{"panics", "fatal_errors"} {
+		if total[k] == 0 {
+			c.Count(k, 0)
+		}
 	}
 	if c.Only == "" {
 		for _, need := range []string{"patch_checked_noop", "patch_checked_required_error", "patch_checked_value", "patch_checked_transform_error",
-			"law_checked_value", "law_checked_error", "law_checked_roundtrip", "composer_rendered", "composer_unrendered_required-missing"} {
+			"patch_checked_wildcard_expansion", "law_checked_value", "law_checked_error", "law_checked_roundtrip", "composer_rendered", "composer_unrendered_required-missing"} {
 			if total[need] == 0 {
 				c.Inconclusive("oracle never exercised: " + need)
 			}
 		}
 	}
 	c.Floor = c.N(20000, 400000)
-	c.Extra("parts", map[string]any{"patch_cases": parts[0].n, "law_cases": parts[1].n, "composer_cases": parts[2].n, "workers": workers})
+	c.Extra("parts", map[string]any{"patch_cases": parts[0].n, "law_cases": parts[1].n, "composer_cases": parts[2].n})
 	c.Finish()
 }
 
